@@ -359,6 +359,71 @@ def main():
             except Exception as ex:
                 e["raised"] = "%s: %s" % (type(ex).__name__, str(ex)[:100])
             add(e)
+    # an end fragment (one attachment point) together with a middle fragment (two): the "unequal number of
+    # boundaries" branch expands each on its own and joins them; the rule list must name every application
+    nuneq = 0
+    for smi in mols:
+        if nuneq >= (150 if tier == "quick" else 3000):
+            break
+        src = oracle.parse(smi)
+        if src is None or src.GetNumAtoms() < 4 or src.GetNumAtoms() > 40 or "." in smi:
+            continue
+        Chem.MolToSmiles(src)
+        bonds = [b for b in src.GetBonds() if b.GetBondType() == Chem.BondType.SINGLE and not b.IsInRing()
+                 and b.GetBeginAtom().GetSymbol() != "H" and b.GetEndAtom().GetSymbol() != "H"]
+        if len(bonds) < 2:
+            continue
+        ba, bb = rng.sample(bonds, 2)
+        mid = cut2(src, ba, bb)
+        ends = cut(src, ba)
+        if mid is None or ends is None:
+            continue
+        bb_atoms = {bb.GetBeginAtomIdx(), bb.GetEndAtomIdx()}
+        # the end piece of the first cut = the one that does not hold the second bond
+        end = None
+        for f in ends:
+            other = {ba.GetBeginAtomIdx(), ba.GetEndAtomIdx()} - {f["nidx"]}
+            # f["nidx"] is the neighbour OUTSIDE the fragment; the fragment holds the other end of ba
+            if f["mol"].GetNumAtoms() + mid["mol"].GetNumAtoms() < src.GetNumAtoms() + 1 and f["nidx"] in \
+                    {n_ for _, n_ in mid["bounds"]} | {ba.GetBeginAtomIdx(), ba.GetEndAtomIdx()}:
+                end = f
+        if end is None or end["mol"].GetNumAtoms() >= src.GetNumAtoms() - mid["mol"].GetNumAtoms() + 1 and False:
+            continue
+        # keep only true end pieces: end + middle together must not exceed the molecule
+        if end["mol"].GetNumAtoms() + mid["mol"].GetNumAtoms() > src.GetNumAtoms():
+            continue
+        nuneq += 1
+        for order in (0,):     # the first compound must have ONE attachment point (documented NotImplementedError otherwise)
+            e = {"ev": "merge_u", "src": smi, "use_smiles": False, "b": [],
+                 "frag_smiles": [Chem.MolToSmiles(end["mol"]), Chem.MolToSmiles(mid["mol"])],
+                 "frag_heavy": [counts(end["mol"]), counts(mid["mol"])], "raised": "", "rules": [], "open": 0,
+                 "parses": False, "heavy": {}, "ncomp": 0, "order": order}
+            try:
+                cset = CompoundSet()
+
+                def add_end():
+                    c = cset.add_compound(Chem.Mol(end["mol"]), src_mol=Chem.Mol(src))
+                    c.add_boundary(end["index"], symbol=end["mol"].GetAtomWithIdx(end["index"]).GetSymbol(),
+                                   neighbor_index=end["nidx"], neighbor_symbol=src.GetAtomWithIdx(end["nidx"]).GetSymbol())
+
+                def add_mid():
+                    c = cset.add_compound(Chem.Mol(mid["mol"]), src_mol=Chem.Mol(src))
+                    for idx, nidx in mid["bounds"]:
+                        c.add_boundary(idx, symbol=mid["mol"].GetAtomWithIdx(idx).GetSymbol(), neighbor_index=nidx,
+                                       neighbor_symbol=src.GetAtomWithIdx(nidx).GetSymbol())
+                (add_end(), add_mid()) if order == 0 else (add_mid(), add_end())
+                res = merge(cset)
+                e["rules"] = [r.name for r in res.rules]
+                e["open"] = len(res.boundaries)
+                e["out"] = res.smiles
+                m = oracle.parse(res.smiles)
+                if m is not None:
+                    e["parses"] = True
+                    e["heavy"] = counts(m)
+                    e["ncomp"] = len(Chem.GetMolFrags(m))
+            except Exception as ex:
+                e["raised"] = "%s: %s" % (type(ex).__name__, str(ex)[:100])
+            add(e)
     # fragments with two attachment points (two bonds cut), completed on their own, boundaries in both orders
     nmulti = 0
     max_multi = 250 if tier == "quick" else 5000
@@ -402,7 +467,7 @@ def main():
                 add(e)
     common.write_ndjson(out_file, ev)
     m2 = [e for e in ev if e["ev"] == "merge2"]
-    print(json.dumps({"events": len(ev), "pairs": npairs, "two_boundary_fragments": nmulti, "sets_with_spectators": nspect, "reconstructed": sum(1 for e in m2 if e["same"]),
+    print(json.dumps({"events": len(ev), "pairs": npairs, "two_boundary_fragments": nmulti, "sets_with_spectators": nspect, "unequal_boundary_sets": nuneq, "reconstructed": sum(1 for e in m2 if e["same"]),
                       "raised": sum(1 for e in ev if e.get("raised")),
                       "rules_seen": sorted({r for e in ev if e["ev"] != "rules" for r in e["rules"]})}))
 
